@@ -16,7 +16,11 @@ FaultsAt(p) ==
   \cup (IF IsNN(t) THEN {[o |-> "null"]} ELSE {})
   \cup (IF IsList(core) THEN {[o |-> "nonlist"]} ELSE {})
   \cup (IF ~IsList(core) /\ IsLeaf(Named(core)) THEN {[o |-> "bad"]} ELSE {})
-  \cup (IF ~IsList(core) /\ IsAbstract(Named(core)) THEN {[o |-> "rt", tn |-> "Nope"], [o |-> "rt", tn |-> "T"]} ELSE {})
+  \cup (IF ~IsList(core) /\ IsAbstract(Named(core))
+        THEN {[o |-> "rt", tn |-> "Nope"], [o |-> "rt", tn |-> "T"]}
+             \* object types that are possible for ANOTHER abstract type only
+             \cup {[o |-> "rt", tn |-> x] : x \in (UNION {Possible(a) : a \in {y \in DOMAIN Types : IsAbstract(y)}}) \ Possible(Named(core))}
+        ELSE {})
 
 Singles(ps) == {<<p.path, o>> : p \in ps, o \in UNION {FaultsAt(q) : q \in ps}}
 GoodSingle(ps, s) == \E p \in ps : p.path = s[1] /\ s[2] \in FaultsAt(p)
